@@ -22,8 +22,10 @@
 (*            the requester of a refused allocation                        *)
 (*     declared   the schema the reader declared ([s, nullable] per field) *)
 (*     batches    every batch returned before the end / the error:         *)
-(*            [ref, big, schema, cols (vcore::dump::to_layout), nrows, vf, *)
-(*             lens, types]; `big` batches carry no dumps (too large for   *)
+(*            [ref, big, decl, schema, cols (vcore::dump::to_layout),      *)
+(*             nrows, vf, lens, types]; decl = the schema the reader       *)
+(*            declared when it returned the batch (a Flight / IPC stream   *)
+(*            may re-declare); `big` batches carry no dumps (too large for *)
 (*            TLC), `vf` = the crate's own validate_full + RecordBatch     *)
 (*            ::try_new accepted the batch (an observation).  Sessions are *)
 (*            grouped by (file, api); each group starts with the session   *)
@@ -79,20 +81,20 @@ SchemaEq(a, b) == Len(a) = Len(b) /\ \A i \in 1..Len(a) : a[i].s = b[i].s /\ a[i
 
 FullBatchOK(e, b) ==
   /\ b.vf
-  /\ e.has_declared /\ SchemaEq(e.declared, b.schema)
+  /\ e.has_declared /\ SchemaEq(b.decl, b.schema)
   /\ Len(b.lens) = Len(b.schema) /\ Len(b.types) = Len(b.schema)
   /\ \A i \in 1..Len(b.schema) : b.lens[i] = b.nrows /\ b.types[i] = b.schema[i].s
   /\ b.big \/ BatchWellFormed(b.schema, b.cols, b.nrows)
 
 (* a reference is to a batch of the base session of the same (file, api),    *)
 (* which was judged in full when that session was read; what remains is the  *)
-(* agreement with the schema this session declared                           *)
+(* identity of the dump, which includes the schema declared at that moment   *)
 BatchOK(e, b) ==
   IF b.ref = 0 THEN FullBatchOK(e, b)
   ELSE /\ e.src # "base" /\ bkey = <<e.fmt, e.file, e.api>>
        /\ b.ref >= 1 /\ b.ref <= Len(bases)
        /\ b.vf /\ b.nrows = bases[b.ref].nrows
-       /\ e.has_declared /\ SchemaEq(e.declared, bases[b.ref].schema)
+       /\ e.has_declared /\ SchemaEq(bases[b.ref].decl, bases[b.ref].schema)
 
 BatchesOK(e) == Len(e.batches) = e.nb /\ \A i \in 1..Len(e.batches) : BatchOK(e, e.batches[i])
 
